@@ -108,6 +108,42 @@ theorem dropWhile_eq_nil {p : Node → Bool} : ∀ {xs : List Node}, (∀ x ∈ 
   | c :: r, h => by
     rw [List.dropWhile_cons, if_pos (h c (by simp)), dropWhile_eq_nil (fun x hx => h x (by simp [hx]))]
 
+/-- pigeonhole: a duplicate-free list of numbers below `N` has at most `N` elements -/
+theorem length_le_of_nodup_lt : ∀ (N : Nat) (xs : List Nat), xs.Nodup → (∀ x ∈ xs, x < N) → xs.length ≤ N
+  | 0, xs, _, hb => by
+    cases xs with
+    | nil => simp
+    | cons x r => exact absurd (hb x (by simp)) (by omega)
+  | N + 1, xs, hnd, hb => by
+    by_cases hm : N ∈ xs
+    · have ih := length_le_of_nodup_lt N (xs.erase N) (hnd.sublist (List.erase_sublist))
+        (fun x hx => by
+          have h1 := (List.Nodup.mem_erase_iff hnd).1 hx
+          have := hb x h1.2
+          omega)
+      rw [List.length_erase_of_mem hm] at ih
+      omega
+    · have ih := length_le_of_nodup_lt N xs hnd (fun x hx => by
+        have := hb x hx
+        have : x ≠ N := fun e => hm (e ▸ hx)
+        omega)
+      omega
+
+/-- walking a well-formed chain with enough fuel returns it -/
+theorem walk_seg (h : Heap) : ∀ (xs : List Node) (f : Nat) (s : Option Node),
+    Seg h.next s xs none → xs.length ≤ f → walk h f s = some xs
+  | [], f, s, hs, _ => by
+    have : s = none := hs
+    subst this
+    cases f <;> rfl
+  | x :: r, f, s, hs, hf => by
+    obtain ⟨g, rfl⟩ : ∃ g, f = g + 1 := ⟨f - 1, by simp at hf; omega⟩
+    have h1 : s = some x := hs.1
+    subst h1
+    simp only [walk]
+    rw [walk_seg h r g _ hs.2 (by simp at hf; omega)]
+    rfl
+
 /-! ### the cells after a write -/
 @[simp] theorem setNext_next (h : Heap) (n : Node) (v : Option Node) (i : Node) :
     (setNext h n v).next i = if i = n then v else h.next i := rfl
